@@ -48,8 +48,9 @@ func processInit() {
 
 // actor is a simulated participant with a key derived from the plan seed.
 type actor struct {
-	idx int
-	acc *account.Account
+	idx   int
+	acc   *account.Account
+	weird string // non-empty: a key-less script actor (see weird.go)
 }
 
 func makeActors(seed uint64, n int) []*actor {
